@@ -1,7 +1,117 @@
 import ConfModel.Driver.Common
+import ConfModel.Model.Library
+import ConfModel.Spec.Library
 namespace ConfModel.Driver.C07
-open Lean ConfModel.Driver
+open Lean ConfModel.Driver ConfModel.Config ConfModel.Library
 
-def handle : Handler := fun op _inp _impl => bad ("C07: unknown op " ++ op)
+def testOf (j : Json) : Test :=
+  { name := str (field j "name"), st := ST.ofNum (nat (field j "st")),
+    service := str (field j "service"), method := str (field j "method"),
+    rawRequest := bool (field j "rawReq"), rawResponse := bool (field j "rawResp"),
+    hasExpected := bool (field j "expected") }
+
+def suiteOf (j : Json) : Suite :=
+  { name := str (field j "name"), mode := Mode.ofNum (nat (field j "mode")),
+    protocols := (natList (field j "protocols")).map Proto.ofNum,
+    versions := (natList (field j "versions")).map Ver.ofNum,
+    codecs := (natList (field j "codecs")).map Codec.ofNum,
+    comps := (natList (field j "comps")).map Comp.ofNum,
+    cvm := CVM.ofNum (nat (field j "cvm")),
+    reliesOnTls := bool (field j "tls"), reliesOnCerts := bool (field j "certs"),
+    reliesOnGet := bool (field j "get"), reliesOnLimit := bool (field j "limit"),
+    tests := (arr (field j "tests")).map testOf }
+
+def sortedDistinct (l : List Nat) : List Nat :=
+  let a := l.toArray.qsort (· < ·)
+  (a.foldl (fun (acc : Array Nat) x => if acc.back? == some x then acc else acc.push x) #[]).toList
+
+/-- membership bitmap over case codes (Go: `configCaseSet` map lookup) -/
+def bitmap (codes : List Nat) : ByteArray :=
+  codes.foldl (fun (b : ByteArray) c => if c < b.size then b.set! c 1 else b) (ByteArray.mk (Array.replicate 129024 0))
+
+def b01 (b : Bool) : String := if b then "1" else "0"
+
+/-- canonical line of a permutation: the observables property C07 names -/
+def permLine (q : Perm) : String :=
+  s!"{q.fullName}|{q.simpleName}|{q.v.num}|{q.p.num}|{q.c.num}|{q.z.num}|{q.st.num}|{b01 q.serverCert}|{b01 q.clientCreds}|{q.service}|{q.method}"
+
+def implPermLine (j : Json) : String :=
+  let g (k : String) := field j k
+  s!"{str (g "name")}|{str (g "simple")}|{nat (g "v")}|{nat (g "p")}|{nat (g "c")}|{nat (g "z")}|{nat (g "st")}|{b01 (bool (g "cert"))}|{b01 (bool (g "creds"))}|{str (g "service")}|{str (g "method")}"
+
+def keyLine (k : ServerKey) (names : List String) : String :=
+  s!"{k.p.num}|{k.v.num}|{b01 k.tls}|{b01 k.certs}|" ++ "\n".intercalate (sortStrings names)
+
+def handle : Handler := fun op inp impl =>
+  if !(isNull (field impl "panic")) then
+    { agree := false, holds := false, why := "panic: " ++ str (field impl "panic") } else
+  match op with
+  | "lib" | "corpus" =>
+    let suites := (arr (field inp "suites")).map suiteOf
+    let codes := sortedDistinct (natList (field inp "cases"))
+    let cases := codes.map Case.ofCode
+    let mode := Mode.ofNum (nat (field inp "mode"))
+    let bm := bitmap codes
+    let inCases : Case → Bool := fun c => bm.get! c.code == 1
+    -- implementation
+    let implErr := str (field impl "err")
+    let implOk := implErr == ""
+    let stable := bool (field impl "stable")
+    let implPermsJ := arr (field impl "perms")
+    let implPerms := sortStrings (implPermsJ.map implPermLine)
+    let keysConsistent := implPermsJ.all fun j => str (field j "name") == str (field j "key")
+    let implGroupsJ := arr (field impl "groups")
+    let implGroups : List (ServerKey × List String) := implGroupsJ.map fun j =>
+      (⟨Proto.ofNum (nat (field j "p")), Ver.ofNum (nat (field j "v")), bool (field j "tls"), bool (field j "certs")⟩,
+        strList (field j "names"))
+    let implGroupLines := sortStrings (implGroups.map fun g => keyLine g.1 g.2)
+    let implAll := ["allFT", "allTF", "allTT"].map fun k => strList (field impl k)
+    -- model
+    let m := newLibrary pathJoin suites inCases mode
+    let agree := match m with
+      | .error _ => !implOk
+      | .ok lib =>
+        implOk && implPerms == sortStrings (lib.map permLine) &&
+        implGroupLines == sortStrings ((group lib).map fun g => keyLine g.1 (g.2.map (·.fullName))) &&
+        implAll == [(false, true), (true, false), (true, true)].map fun (cl, sv) =>
+          sortStrings ((allPermutations cl sv lib).map (·.fullName))
+    -- the property, on the implementation's output
+    let wf := decide (WellFormed pathJoin suites cases mode)
+    let specPerms := if wf then specList pathJoin suites cases mode else []
+    let spec := sortStrings (specPerms.map permLine)
+    let specAll := [(false, true), (true, false), (true, true)].map fun (cl, sv) =>
+      sortStrings (specAllNames cl sv specPerms)
+    let implKeyed : List (String × ServerKey) := implPermsJ.map fun j =>
+      (str (field j "name"),
+        ⟨Proto.ofNum (nat (field j "p")), Ver.ofNum (nat (field j "v")), bool (field j "cert"), bool (field j "creds")⟩)
+    let grouped := decide (GroupedOnce implKeyed implGroups)
+    let (holds, why) : Bool × String :=
+      if !stable then (false, "unstable: repeated expansion of the same input gave different results")
+      else if !wf then (true, "")
+      else if spec.isEmpty then (!implOk, if implOk then "extra: permutations returned although none is specified" else "")
+      else if !implOk then (false, s!"rejected ({implErr}) although the suites are well-formed and {spec.length} permutation(s) are specified")
+      else if implPerms != spec then
+        (false, s!"wrong-permutations: returned {implPerms.length}, specified {spec.length}; missing {(spec.filter (!implPerms.contains ·)).take 3}, extra {(implPerms.filter (!spec.contains ·)).take 3}")
+      else if !keysConsistent then (false, "map-key: a test case is stored under a key different from its name")
+      else if !grouped then (false, "grouping: a permutation is not in exactly one server-instance bucket with its own key")
+      else if implAll != specAll then (false, "grpc-peers: allPermutations does not return the library plus the marked applicable permutations")
+      else (true, "")
+    { agree := agree, holds := holds, nontrivial := wf && !spec.isEmpty,
+      model := match m with
+        | .error e => Json.mkObj [("err", toString (repr e))]
+        | .ok lib => Json.mkObj [("perms", toJson lib.length)],
+      why := why,
+      cls := if !wf then "ill-formed" else if spec.isEmpty then "empty" else "ok" }
+  | "parse" =>
+    let suites := (arr (field inp "suites")).map suiteOf
+    let implErr := str (field impl "err")
+    let m := parseSuites suites
+    let ok := decide (RawPayloadsOk suites)
+    let holds := (implErr == "") == ok
+    { agree := (implErr == "") == m.isNone, holds := holds, nontrivial := !ok || suites.any (fun s => s.tests.any fun t => t.rawRequest || t.rawResponse),
+      model := toJson (toString (repr m)),
+      why := if holds then "" else if ok then s!"rejected ({implErr}) although raw payloads are used where allowed" else "accepted: a raw payload is used where it is not allowed",
+      cls := if ok then "ok" else "rejected" }
+  | _ => bad ("C07: unknown op " ++ op)
 
 end ConfModel.Driver.C07
